@@ -2,8 +2,9 @@
   WS.Props.C07 — every ping is answered exactly once with a pong carrying the same payload.
 -/
 import WS.Props.C01
+import WS.Props.C04
 namespace WS.Props.C07
-open WS WS.Spec WS.Model
+open WS WS.Spec WS.Model WS.Lemmas.RecvStrict WS.Lemmas.Parser WS.Lemmas.Stream WS.Lemmas.Loop
 
 /-- **C07_pong_bytes** — the frame `pong(p)` formats for a ping payload `p` of at most 125 bytes is, for
     every `p` and every 4-byte key, read by the RFC decoder as FIN=1, opcode 10, MASK set, 7-bit length,
@@ -18,5 +19,24 @@ theorem C07_pong_bytes (p key : Bytes) (hk : key.length = 4) (hp : p.length ≤ 
   have : minimalForm p.length = 7 := by unfold minimalForm; rw [if_pos hp]
   rw [this] at h2
   exact h2
+
+/-- **C07_trace** — along the frames of any message (pings and pongs at any position: before, between and
+    inside the fragments), the bytes the receive call writes are EXACTLY the pongs for the pings, one each,
+    in the order the pings arrived, each formatted with the next key from the key source — and nothing is
+    written for pongs or data frames. (Each pong is written inside the loop iteration that read its ping,
+    before `recv_frame` is called again: `step`/`loop_message` thread the state through `pong` before
+    recursing.) -/
+theorem C07_trace (fs : List Frame) (hm : MsgFrames none fs)
+    (c : Conn) (ws : List WireFrame) (tail : Bytes)
+    (hr : Ready c) (hidle : LoopInv c none []) (hmap : ws.map frameOfWire = fs)
+    (hval : ∀ w ∈ ws, validate (frameOfWire w) c.skipUtf8 = none)
+    (hd : DecodesTo (pending c) ws tail) :
+    (c.recvDataFrame false).2.sock.wire = c.sock.wire ++ pongsWire c.keys fs := by
+  have hfu : fs.length ≤ c.sock.size + c.buf.length + 2 := by
+    rw [← hmap, List.length_map]; exact WS.Props.C04.fuel_enough c ws tail hd
+  obtain ⟨c', e, _, _, _, w, _⟩ := loop_message fs none hm c [] ws tail _ hr hidle hmap hval hd hfu
+  simp only [Conn.recvDataFrame]
+  rw [e]
+  exact w
 
 end WS.Props.C07
